@@ -62,20 +62,20 @@ impl Decode for Frame {
             ChannelAssignment::Independent(_) => {}
             ChannelAssignment::LeftSide => {
                 for t in 0..self.block_size() {
-                    channels[1][t] = channels[0][t] - channels[1][t];
+                    channels[1][t] = channels[0][t].wrapping_sub(channels[1][t]);
                 }
             }
             ChannelAssignment::RightSide => {
                 for t in 0..self.block_size() {
-                    channels[0][t] += channels[1][t];
+                    channels[0][t] = channels[0][t].wrapping_add(channels[1][t]);
                 }
             }
             ChannelAssignment::MidSide => {
                 for t in 0..self.block_size() {
                     let s = channels[1][t];
-                    let m = (channels[0][t] << 1) + (s & 0x01);
-                    channels[0][t] = (m + s) >> 1;
-                    channels[1][t] = (m - s) >> 1;
+                    let m = (channels[0][t] << 1).wrapping_add(s & 0x01);
+                    channels[0][t] = m.wrapping_add(s) >> 1;
+                    channels[1][t] = m.wrapping_sub(s) >> 1;
                 }
             }
         }
@@ -149,7 +149,7 @@ fn decode_lpc<T: Into<i64> + Copy>(
         for (tau, w) in coefs.iter().enumerate() {
             pred += <T as Into<i64>>::into(*w) * i64::from(dest[t - 1 - tau]);
         }
-        dest[t] += (pred >> shift) as i32;
+        dest[t] = dest[t].wrapping_add((pred >> shift) as i32);
     }
 }
 
